@@ -4,7 +4,7 @@ built from *access patterns*, and the node reference evaluation.
 AST (mirrors lean/SFV/Model/JsDeps.lean `Js`):
   ("num", n) ("str", s) ("ident", x) ("dot", e, k) ("idx", e, i) ("paren", e) ("assign", x, e) ("bin", a, b)
   ("cond", c, a, b) ("call", f, [args]) ("fexpr", [ps], [stmts]) ("varDecl", x) ("varInit", x, e) ("ret", e)
-  ("ite", c, [t], [e]) ("fdecl", f, [ps], [stmts]) ; a statement list is a Python list.
+  ("ite", c, [t], [e]) ("fdecl", f, [ps], [stmts]) ("loop", i, n, [stmts]) ; a statement list is a Python list.
 """
 from __future__ import annotations
 
@@ -112,6 +112,8 @@ def pp_stmts(stmts, rng=None) -> str:
             out.append(f"if ({pp_expr(s[1], rng)}) {{{pp_stmts(s[2], rng)}}} else {{{pp_stmts(s[3], rng)}}}")
         elif t == "fdecl":
             out.append(f"function {s[1]}({', '.join(s[2])}) {{{pp_stmts(s[3], rng)}}}")
+        elif t == "loop":
+            out.append(f"for (var {s[1]} = 0; {s[1]} < {s[2]}; {s[1]}++) {{{pp_stmts(s[3], rng)}}}")
         else:
             if _starts_with_function(s):
                 raise ShapeError("expression statement starting with `function`")
@@ -165,6 +167,8 @@ def enc(e) -> list[str]:
         return ["ite"] + enc(e[1]) + enc_list(e[2]) + enc_list(e[3])
     if t == "fdecl":
         return ["fd", hx(e[1]), str(len(e[2]))] + [hx(p) for p in e[2]] + enc_list(e[3])
+    if t == "loop":
+        return ["loop", hx(e[1]), str(e[2])] + enc_list(e[3])
     raise ValueError(t)
 
 
@@ -194,7 +198,7 @@ I = ("ident", "inputs")
 # patterns the listener is expected to handle (sound) and patterns that are known defects
 HANDLED = ["dot", "index", "alias", "alias-chain", "iife", "fdecl-direct", "shadow-inputs", "shadow-alias", "nested",
            "computed-on-value", "string-mention", "kill", "cond-expr", "if-stmt", "paren-value", "fexpr-param",
-           "reserved-as-string-index", "numeric-index", "inner-kill", "nested-shadow"]
+           "reserved-as-string-index", "numeric-index", "inner-kill", "nested-shadow", "loop-read", "loop-alias-before"]
 DEFECTS = {
     "var-init-alias": "miss",          # var x = inputs; x.k
     "paren-object": "miss",            # (inputs).k
@@ -206,6 +210,7 @@ DEFECTS = {
     "untaken-kill": "miss",            # x = inputs; if (0) {x = y;} x.k
     "reserved-dot": "miss",            # inputs.if
     "returned-alias": "miss",          # function f(){return inputs;} f().k
+    "loop-carried-alias": "miss",      # for(..){ if (y) {y.k} y = inputs; }
     "computed-index": "miss",          # inputs[kv]        (AttributeError before fix 254d061)
     "concat-index": "miss",            # inputs['a' + 'b'] (AttributeError before fix 254d061)
 }
@@ -261,7 +266,7 @@ class Gen:
         if name in ("reserved-dot",):
             pool = RESERVED_KEYS
         elif name in ("var-init-alias", "paren-object", "arg-alias", "fdecl-local-alias", "late-alias", "returned-alias",
-                      "paren-alias", "cond-alias", "untaken-kill"):
+                      "paren-alias", "cond-alias", "untaken-kill", "loop-carried-alias"):
             pool = IDENT_KEYS + STRING_KEYS
         k = self.key(pool, defect)
         if k is None:
@@ -312,6 +317,24 @@ class Gen:
             self.pre += [("varDecl", x), ("assign", x, I), ("fdecl", f, [x], [("ret", self.access(("ident", x), k))])]
             self.handled_keys.discard(k)
             return ("call", ("ident", f), [("dot", I, k0)])
+        if name == "loop-read":
+            # direct reads inside a counted loop, the loop index used as a computed index on a field value
+            i, t = self.fresh("i"), self.fresh("t")
+            k0 = self.key(IDENT_KEYS, False) or "a"
+            self.uses.append(("dot", k0))
+            self.pre += [("varDecl", t), ("loop", i, rng.randint(0, 3), [("assign", t, self.access(I, k)),
+                                                                         ("idx", ("dot", I, k0), ("ident", i))])]
+            return ("dot", I, k0)
+        if name == "loop-alias-before":
+            # alias established before the loop, used inside it
+            i, x = self.fresh("i"), self.fresh("x")
+            self.pre += [("varDecl", x), ("assign", x, I), ("loop", i, rng.randint(1, 3), [self.access(("ident", x), k)])]
+            return ("num", 0)
+        if name == "loop-carried-alias":
+            i, y, t = self.fresh("i"), self.fresh("y"), self.fresh("t")
+            self.pre += [("varDecl", y), ("varDecl", t),
+                         ("loop", i, 2, [("ite", ("ident", y), [("assign", t, self.access(("ident", y), k))], []), ("assign", y, I)])]
+            return ("num", 0)
         if name == "nested-shadow":
             # a function declared INSIDE another function shadows `inputs` (or an alias) with a parameter; the outer function
             # reads inputs afterwards: the shadowing must end with the inner declaration
